@@ -270,6 +270,43 @@ fn endian_imm(rng: &mut Rng) -> i32 {
     *rng.pick(&[16, 32, 64])
 }
 
+/// Randomise the fields each instruction does NOT use (within what the verifier admits): engines
+/// must ignore them.
+pub fn fuzz_unused_fields(prog: &mut [u8], rng: &mut Rng) {
+    let n = prog.len() / 8;
+    let mut pc = 0;
+    while pc < n {
+        let mut i = decode_at(prog, pc);
+        let Some(info) = op_info(i.opc) else {
+            pc += 1;
+            continue;
+        };
+        let (ud, us, uo, ui) = used_fields(info.shape);
+        if !ud && rng.chance(1, 2) {
+            i.dst = rng.below(10) as u8;
+        }
+        if !us && rng.chance(1, 2) {
+            i.src = rng.below(11) as u8;
+        }
+        if !uo && rng.chance(1, 2) {
+            i.off = rng.interesting_i16().0;
+        }
+        if !ui && info.shape != Shape::Xadd && rng.chance(1, 2) {
+            i.imm = rng.interesting_i32().0;
+        }
+        prog[pc * 8..pc * 8 + 8].copy_from_slice(&i.bytes());
+        if i.opc == LDDW && pc + 1 < n {
+            // second half: only the opcode (0) and the immediate matter
+            let hi = decode_at(prog, pc + 1);
+            let h = Insn::new(0, rng.below(16) as u8, rng.below(16) as u8, rng.next() as i16, hi.imm);
+            prog[(pc + 1) * 8..(pc + 1) * 8 + 8].copy_from_slice(&h.bytes());
+            pc += 2;
+        } else {
+            pc += 1;
+        }
+    }
+}
+
 // ---------------------------------------------------------------------------------------------
 // G-micro: one instruction under test per program, systematic over opcode x (dst, src)
 
@@ -550,13 +587,17 @@ pub fn gen_micro(rng: &mut Rng, idx: u64) -> (Case, MicroInfo) {
         }
         Shape::TailCall => unreachable!(),
     }
-    let prog = b.assemble().expect("micro assemble");
+    let mut prog = b.assemble().expect("micro assemble");
+    if rng.chance(1, 6) {
+        fuzz_unused_fields(&mut prog, rng);
+    }
     let mut c = Case::new(kind, prog, &format!("micro/{template}"));
     c.pkt = pkt;
     c.helpers = helpers;
     c.end_aligned = rng.chance(1, 2);
     if kind == Kind::Mbuff {
-        c.mbuff = rng.bytes(32);
+        let ml = if rng.chance(1, 2) { 32 } else { rng.range(1, 80) as usize };
+        c.mbuff = rng.bytes(ml);
     }
     if kind == Kind::Fixed {
         c.offs = *rng.pick(&[(0usize, 8usize), (8, 0), (0x40, 0x50), (16, 32)]);
@@ -1072,7 +1113,11 @@ pub fn gen_struct(rng: &mut Rng, opts: &StructOpts) -> (Case, Vec<&'static str>)
             let _ = &mut func_bodies_ok;
         }
         let _ = label_pcs_needed;
-        if let Some(prog) = g.b.assemble() {
+        if let Some(mut prog) = g.b.assemble() {
+            if g.rng.chance(1, 6) {
+                fuzz_unused_fields(&mut prog, g.rng);
+                g.feat("unused-fields");
+            }
             let feats = g.features.clone();
             let mut c = Case::new(kind, prog, "struct");
             c.pkt = pkt.clone();
